@@ -51,7 +51,8 @@ type Config struct {
 	KeepScripts    int  // number of assertion query scripts kept for cross-checks
 	SamplePaths    int  // passing paths whose model/tape is kept as samples
 	Trace          bool
-	NoSnapshot     bool // run package initialisers on every path
+	NoSnapshot     bool   // run package initialisers on every path
+	Setup          string // optional concrete set-up function of the harness package, run once after the initialisers (part of the snapshot)
 	Params         map[string]int64 // harness parameters (rt.Param)
 }
 
@@ -171,6 +172,7 @@ type explorer struct {
 	poolHavoc   bool
 	template    bool // package-init template: nothing symbolic may happen
 	pcSet       map[int]bool
+	bounds      map[int]ubound
 	known       int
 	// outcome
 	failures []Failure
@@ -218,7 +220,128 @@ func (ex *explorer) assertPC(t *smt.Term) {
 		ex.pcSet = map[int]bool{}
 	}
 	ex.addFacts(t)
+	ex.addBound(t, true)
 	ex.solver.Assert(t)
+}
+
+type ubound struct{ lo, hi uint64 }
+
+// cmpConst recognises an unsigned comparison of a term with a constant:
+// returns x, and the interval of x for which t is true.
+func cmpConst(t *smt.Term) (x *smt.Term, tr ubound, ok bool) {
+	if t.Sort != smt.SBool || len(t.Args) != 2 {
+		return nil, ubound{}, false
+	}
+	a, b := t.Args[0], t.Args[1]
+	if a.Sort != smt.SBV || a.W > 64 {
+		return nil, ubound{}, false
+	}
+	max := ^uint64(0)
+	if a.W < 64 {
+		max = uint64(1)<<uint(a.W) - 1
+	}
+	switch t.Op {
+	case smt.OUlt: // a < b
+		if b.IsConst() && !a.IsConst() {
+			if b.Val == 0 {
+				return nil, ubound{}, false
+			}
+			return a, ubound{0, b.Val - 1}, true
+		}
+		if a.IsConst() && !b.IsConst() {
+			if a.Val == max {
+				return nil, ubound{}, false
+			}
+			return b, ubound{a.Val + 1, max}, true
+		}
+	case smt.OUle: // a <= b
+		if b.IsConst() && !a.IsConst() {
+			return a, ubound{0, b.Val}, true
+		}
+		if a.IsConst() && !b.IsConst() {
+			return b, ubound{a.Val, max}, true
+		}
+	case smt.OEq:
+		if b.IsConst() && !a.IsConst() {
+			return a, ubound{b.Val, b.Val}, true
+		}
+		if a.IsConst() && !b.IsConst() {
+			return b, ubound{a.Val, a.Val}, true
+		}
+	}
+	return nil, ubound{}, false
+}
+
+// addBound narrows the known unsigned interval of a term from an asserted comparison.
+func (ex *explorer) addBound(t *smt.Term, pos bool) {
+	if t.Op == smt.OBNot {
+		ex.addBound(t.Args[0], !pos)
+		return
+	}
+	if t.Op == smt.OBAnd && pos {
+		ex.addBound(t.Args[0], true)
+		ex.addBound(t.Args[1], true)
+		return
+	}
+	x, tr, ok := cmpConst(t)
+	if !ok {
+		return
+	}
+	if ex.bounds == nil {
+		ex.bounds = map[int]ubound{}
+	}
+	max := ^uint64(0)
+	if x.W < 64 {
+		max = uint64(1)<<uint(x.W) - 1
+	}
+	b, have := ex.bounds[x.ID]
+	if !have {
+		b = ubound{0, max}
+	}
+	if pos {
+		if tr.lo > b.lo {
+			b.lo = tr.lo
+		}
+		if tr.hi < b.hi {
+			b.hi = tr.hi
+		}
+	} else if t.Op != smt.OEq {
+		// the complement of a one-sided interval is one-sided
+		if tr.lo == 0 && tr.hi < max {
+			if tr.hi+1 > b.lo {
+				b.lo = tr.hi + 1
+			}
+		} else if tr.hi == max && tr.lo > 0 {
+			if tr.lo-1 < b.hi {
+				b.hi = tr.lo - 1
+			}
+		}
+	}
+	ex.bounds[x.ID] = b
+}
+
+// decideByBounds decides a comparison with a constant from the known interval, if possible.
+func (ex *explorer) decideByBounds(c *smt.Term) (val, ok bool) {
+	neg := false
+	for c.Op == smt.OBNot {
+		c = c.Args[0]
+		neg = !neg
+	}
+	x, tr, isCmp := cmpConst(c)
+	if !isCmp {
+		return false, false
+	}
+	b, have := ex.bounds[x.ID]
+	if !have {
+		return false, false
+	}
+	if b.lo >= tr.lo && b.hi <= tr.hi {
+		return !neg, true
+	}
+	if b.hi < tr.lo || b.lo > tr.hi {
+		return neg, true
+	}
+	return false, false
 }
 
 // addFacts records the conjuncts of an asserted term, so that a later branch on a condition
@@ -282,6 +405,10 @@ func (ex *explorer) Branch(fr *frame, c *smt.Term, kind string) bool {
 	if ex.pcSet[ex.ctx.Not(c).ID] {
 		ex.known++
 		return false
+	}
+	if v, ok := ex.decideByBounds(c); ok {
+		ex.known++
+		return v
 	}
 	if fr != nil {
 		fr.loopGuard(ex)
@@ -781,6 +908,9 @@ func runPath(r *Run, prog *ssa.Program, pkg *ssa.Package, fn *ssa.Function, item
 			wk.tpl.instantiate(i)
 		} else {
 			i.runInits(pkg)
+			if r.cfg.Setup != "" {
+				call(i, nil, 0, pkg.Func(r.cfg.Setup), nil)
+			}
 		}
 		call(i, nil, 0, fn, nil)
 		i.sch.mainDone(i)
